@@ -24,7 +24,7 @@ def location_funcs(layout):
     elif layout == 'mp':
         return tile_location_mp, level_location
     elif layout == 'tms':
-        return tile_location_tms, level_location
+        return tile_location_tms, level_location_tms
     elif layout == 'reverse_tms':
         return tile_location_reverse_tms, None
     elif layout == 'quadkey':
@@ -215,7 +215,7 @@ def tile_location_reverse_tms(tile, cache_dir, file_ext, create_dir=False, dimen
 
 
 def level_location_tms(level, cache_dir, dimensions=None):
-    return level_location(str(level), cache_dir=cache_dir)
+    return level_location(str(level), cache_dir=cache_dir, dimensions=dimensions)
 
 
 def tile_location_quadkey(tile, cache_dir, file_ext, create_dir=False, dimensions=None,
